@@ -729,6 +729,7 @@ def correspondence(ctx):
     rngx = ctx.np_rng(55)
     streams.append(XC.weight12_stream(ctx, rngx))
     streams.append(XC.random_stream(ctx, rngx))
+    streams.append(XC.long_sides_stream(ctx, ctx.np_rng(57)))
 
     # --- MemoryBeliefPropagationDecoder: integer/boolean glue (Model/MbpDecoder.lean), see harness/mbp_dec.py
     from harness import mbp_dec
@@ -853,6 +854,21 @@ def oracle_cases(ctx, deep):
                 kw = {'max_bp_iter': 10, 'osd_order': 0} if dname == 'BeliefPropagationOSDDecoder' else None
                 cases.append({'decoder': dname, 'code': cname, 'size': list(size), 'direction': [0.5, 0.25, 0.25],
                               'p': 0.125, 'kwargs': kw, 'errors': errs, 'kind': 'dense-large'})
+    # deep search only: XCube lattices with a side of 5 or more (plane indices 9, 11, ...: the reference plane of
+    # a component can lie above the plane being projected, the projection loops cross the periodic seam) --
+    # weight-2 / weight-3 X errors, the regime in which the two projection loops differ
+    if deep:
+        for size in [(5, 2, 2), (2, 6, 2), (2, 2, 5), (6, 3, 2)]:
+            code = make_code('XCubeCode', size)
+            n = code.n
+            pairs = list(itertools.combinations(range(n), 2))
+            pairs = [pairs[i] for i in sorted(rng.choice(len(pairs), min(700, len(pairs)), replace=False))]
+            errs = [[[int(a), int(b)], []] for a, b in pairs]
+            errs += [[sorted(int(q) for q in rng.choice(n, 3, replace=False)), []] for _ in range(150)]
+            for ch in range(0, len(errs), 50):
+                cases.append({'decoder': 'XCubeMatchingDecoder', 'code': 'XCubeCode', 'size': list(size),
+                              'direction': [0.25, 0.25, 0.5], 'p': 0.125, 'errors': errs[ch:ch + 50],
+                              'kind': 'xcube-long-side'})
     # all decoders x allowed codes
     for dname, cname in allowed_pairs():
         slow = dname in ('MemoryBeliefPropagationDecoder', 'XCubeMatchingDecoder')
